@@ -212,6 +212,33 @@ fn run_exactlen(honour: bool) {
     } else {
         // C07: a short stream must surface as an error
         assert!(ended || errored, "body did not terminate within the poll bound");
+        // C07: a stream that offers more than announced must surface as an error to a consumer
+        // that polls past the announced length (decided from the script, not from what the
+        // wrapper chose to poll): the first chunk that makes the cumulative offer exceed `len`,
+        // with no end / error event before it
+        let mut cum: u128 = 0;
+        let mut overlong = false;
+        let mut stopped = false;
+        let mut i = 0;
+        while i < K {
+            let ev = unsafe { SCRIPT[i] };
+            if !stopped && !overlong {
+                match ev.kind % 4 {
+                    1 => {
+                        cum += ev.n as u128;
+                        if cum > len as u128 {
+                            overlong = true;
+                        }
+                    }
+                    2 | 3 => stopped = true,
+                    _ => {}
+                }
+            }
+            i += 1;
+        }
+        if overlong {
+            assert!(errored, "C07: the entity stream offers more than announced but the body ended cleanly instead of reporting an error");
+        }
     }
     kani::cover!(ended && !errored && total == len && len > 0, "clean end");
     kani::cover!(errored && (honour || first_err_injected), "length mismatch reported");
